@@ -228,7 +228,8 @@ def run_pinned(prop_id, known):
                     bad.append((path, v))
                     n_bad += 1
             if not n_bad:
-                lines.append(f"pinned regression world of fixed finding {k['id']} passes ({rp})")
+                lines.append((f"pinned probe {k['id']} passes ({rp})" if k["status"] == "probe" else
+                              f"pinned regression world of fixed finding {k['id']} passes ({rp})"))
     return lines, bad
 
 
